@@ -366,10 +366,26 @@ class SameAs(T):
         return {"t": "alias", "of": self.other}
 
 
+class KwargsT(T):
+    """a **kwargs dict with the given (concrete) keys and symbolic values"""
+
+    def __init__(self, **fields):
+        self.fields = fields
+
+    def family(self, name, ctx, psorts):
+        def make(p):
+            return VDict(items=[[VStr(k), t.fresh(f"{name}_{k}", ctx)] for k, t in self.fields.items()])
+        return make
+
+    def decode(self, model, value):
+        return {"t": "dict", "items": {concrete_str(k): self.fields[concrete_str(k)].decode(model, v) for k, v in value.items}}
+
+
 class FnT(T):
     """Uninterpreted callable parameter."""
 
-    def __init__(self, *arg_types, returns=None, symmetric=False, zero_diag=False, nonneg=False):
+    def __init__(self, *arg_types, returns=None, symmetric=False, zero_diag=False, nonneg=False, kw=None):
+        self.kw = dict(kw or {})
         self.arg_types = arg_types
         self.returns = returns
         self.symmetric = symmetric
@@ -377,13 +393,13 @@ class FnT(T):
         self.nonneg = nonneg
 
     def family(self, name, ctx, psorts):
-        sorts = [a.sort() for a in self.arg_types]
+        sorts = [a.sort() for a in self.arg_types] + [t.sort() for t in self.kw.values()]
         f = ctx.fresh_fun(name, *(sorts + [self.returns.sort()]))
         xs = [z3.Const(f"x{i}!f", s) for i, s in enumerate(sorts)]
         if self.symmetric:
-            ctx.assume(z3.ForAll(xs, f(xs[0], xs[1]) == f(xs[1], xs[0])))
+            ctx.assume(z3.ForAll(xs, f(*xs) == f(*([xs[1], xs[0]] + xs[2:]))))
         if self.zero_diag:
-            ctx.assume(z3.ForAll([xs[0]], f(xs[0], xs[0]) == 0))
+            ctx.assume(z3.ForAll([xs[0]] + xs[2:], f(*([xs[0], xs[0]] + xs[2:])) == 0))
         if self.nonneg:
             ctx.assume(z3.ForAll(xs, f(*xs) >= 0))
         fv = VFunc("uf", name, data={"type": self, "fun": f})
